@@ -226,6 +226,8 @@ def main():
     ap.add_argument('--out', default=os.path.join(V, '.work', 'pymut.json'))
     ap.add_argument('--retry', default=None, help='re-evaluate only the survivors listed in this result file')
     ap.add_argument('--all-checks', action='store_true')
+    ap.add_argument('--match', default=None, help='only mutants whose "file what" contains one of these |-separated substrings')
+    ap.add_argument('--checks', default=None, help='comma-separated list of checks to run instead of the per-file order')
     a = ap.parse_args()
     files = a.files.split(',')
     muts = all_mutants(files)
@@ -237,6 +239,12 @@ def main():
         prev = json.load(open(a.retry))
         want = {(r['file'], r['what']) for r in prev['results'] if r['status'] == 'survived'}
         muts = [(f, p) for f, p in muts if (f, p[3]) in want]
+    if a.match:
+        keys = a.match.split('|')
+        muts = [(f, p) for f, p in muts if any(k in (f + ' ' + p[3]) for k in keys)]
+    if a.checks:
+        for f in ORDER:
+            ORDER[f] = a.checks.split(',')
     muts = muts[::a.stride]
     if a.limit:
         muts = muts[:a.limit]
@@ -253,7 +261,7 @@ def main():
     def work(m):
         k = slots.get()
         try:
-            return evaluate(k, m[0], m[1], trees, a.all_checks or bool(a.retry))
+            return evaluate(k, m[0], m[1], trees, a.all_checks or bool(a.retry) or bool(a.checks))
         finally:
             slots.put(k)
     with ThreadPoolExecutor(a.jobs) as ex:
